@@ -15,7 +15,11 @@ import (
 )
 
 // Quirks switch on grammar-level deviations recorded as known findings.
-type Quirks struct{}
+type Quirks struct {
+	// KeywordOperators: and/or/div/mod are operators wherever they occur
+	// (finding grammar-reserved-names), ignoring the §3.7 position rule.
+	KeywordOperators bool
+}
 
 type tokKind int
 
@@ -84,6 +88,7 @@ type lexer struct {
 	s    string
 	i    int
 	toks []token
+	q    Quirks
 }
 
 func (l *lexer) skipWS() {
@@ -130,8 +135,8 @@ func (l *lexer) peekAfterWS(at int) string {
 	return l.s[j:]
 }
 
-func lex(s string) ([]token, error) {
-	l := &lexer{s: s}
+func lex(s string, q Quirks) ([]token, error) {
+	l := &lexer{s: s, q: q}
 	for {
 		l.skipWS()
 		if l.i >= len(l.s) {
@@ -260,6 +265,13 @@ func lex(s string) ([]token, error) {
 				}
 				return nil, &Error{start, "operator name expected, got " + n1}
 			}
+			if l.q.KeywordOperators {
+				switch n1 {
+				case "and", "or", "mod", "div":
+					emit(tOperator, n1)
+					continue
+				}
+			}
 			tk := token{kind: tQName, local: n1, pos: start}
 			// QName / prefix:* (no whitespace around ':')
 			if l.i < len(l.s) && l.s[l.i] == ':' && !(l.i+1 < len(l.s) && l.s[l.i+1] == ':') {
@@ -310,11 +322,14 @@ func (p *parser) isOp(op string) bool {
 func (p *parser) fail(msg string) error { return &Error{p.peek().pos, msg} }
 
 // Parse classifies any string: (AST, nil) for an expression, (nil, error) otherwise.
-func Parse(s string) (e xast.Expr, err error) {
+func Parse(s string) (e xast.Expr, err error) { return ParseQ(s, Quirks{}) }
+
+// ParseQ parses under the given finding quirks.
+func ParseQ(s string, q Quirks) (e xast.Expr, err error) {
 	if !utf8.ValidString(s) {
 		return nil, &Error{0, "invalid UTF-8"}
 	}
-	toks, err := lex(s)
+	toks, err := lex(s, q)
 	if err != nil {
 		return nil, err
 	}
